@@ -4,7 +4,7 @@ import numpy as np
 from harness import common as C
 from harness import zoo as Z
 
-ANCHORS = ["T5cpcca", "T5whiten", "T5eof", "T5eeof", "T8fwd"]
+ANCHORS = ["T5cpcca", "T5whiten", "T5eof", "T5eeof", "T8fwd", "T9text"]
 MODELS = []
 RULE = ("for each listed pair of configurations both models are fitted on the same data (shapes, spectra, flags, n_modes, solver varied) and compared "
         "mode by mode up to the sign (phase for complex data) of each mode: singular values, patterns at each label, scores; multi-set vs cross-set "
